@@ -948,6 +948,22 @@ impl ASN1Type {
 }
 
 impl ASN1Value {
+    /// The type a reference leads to, with the value references in its constraints
+    /// resolved: the referenced type may come later in the linking order, and the width of
+    /// an integer value is read from its bounds.
+    fn referenced_type(
+        t: &ToplevelTypeDefinition,
+        tlds: &BTreeMap<String, ToplevelDefinition>,
+    ) -> Result<ASN1Type, GrammarError> {
+        let mut ty = t.ty.clone();
+        if ty.contains_constraint_reference() {
+            if let Some(replacement) = ty.link_constraint_reference(&t.name, tlds)? {
+                ty = replacement;
+            }
+        }
+        Ok(ty)
+    }
+
     pub fn link_with_type(
         &mut self,
         tlds: &BTreeMap<String, ToplevelDefinition>,
@@ -973,7 +989,8 @@ impl ASN1Value {
                     *integer_type = int_type;
                 }
                 if let Some(ToplevelDefinition::Type(t)) = tlds.get(&e.identifier) {
-                    self.link_with_type(tlds, &t.ty, Some(&t.name))
+                    let ty = Self::referenced_type(t, tlds)?;
+                    self.link_with_type(tlds, &ty, Some(&t.name))
                 } else {
                     Err(grammar_error!(
                         LinkerError,
@@ -1036,7 +1053,8 @@ impl ASN1Value {
                     value: Box::new((*val).clone()),
                 };
                 if let Some(ToplevelDefinition::Type(t)) = tlds.get(&e.identifier) {
-                    self.link_with_type(tlds, &t.ty, Some(&t.name))
+                    let ty = Self::referenced_type(t, tlds)?;
+                    self.link_with_type(tlds, &ty, Some(&t.name))
                 } else {
                     Err(grammar_error!(
                         LinkerError,
